@@ -174,18 +174,30 @@ open Obj in
 method: extrema, midpoints, shape features, burst features resp. burst fractions, labels). Whatever sequence of fits, edge recomputations, loads, edits and plots preceded
 it, a fit that succeeds stores exactly the pipeline's output for the CURRENT settings (burst method, centring, extrema options, thresholds and burst options with their
 defaults), and that table is a well-formed segmentation (C01) of the recording just fitted. -/
-theorem C14_fit_is_pipeline (rc : Table → KV → Except Err Table) (o : Obj Recording Table) (ops : List (Op Recording Table)) (r : Recording)
-    (hdone : (step (pipelineApi rc) (run (pipelineApi rc) o ops) (.fit r)).2 = .done) :
+theorem C14_fit_is_pipeline (o : Obj Recording Table) (ops : List (Op Recording Table)) (r : Recording)
+    (hdone : (step pipelineApi (run pipelineApi o ops) (.fit r)).2 = .done) :
     let cur := ops.foldl editSettings o.st
-    ∃ t, (step (pipelineApi rc) (run (pipelineApi rc) o ops) (.fit r)).1.df = some t ∧
-      ((cur.cycles = true ∧ ∃ oc, t = .cycles oc ∧
+    ∃ t, (step pipelineApi (run pipelineApi o ops) (.fit r)).1.df = some t ∧
+      ((cur.cycles = true ∧ ∃ oc, t = .cycles oc (cur.peak && cur.returnSamples) ∧
           pipelineCycles (centreOf cur) r.x (r.pad cur.fek) (r.b cur.fek (centreOf cur)) r.amp (r.bd cur.fek) (cycThreshOf cur.thresholds) = .ok oc) ∨
        (cur.cycles = false ∧ ∃ oa, t = .amp oa ∧
           pipelineAmp (centreOf cur) r.x (r.pad cur.fek) (r.b cur.fek (centreOf cur)) r.amp (r.bd cur.fek) (cur.burstKwargs.lookup "min_n_cycles")
             (cur.thresholds.lookup "min_n_cycles") (cur.burstKwargs.lookup "min_burst_duration") (r.detMask cur.burstKwargs)
             (lookupD cur.thresholds "burst_fraction_threshold" Slots.ampDefaultThreshold) = .ok oa)) ∧
       ((r.b cur.fek (centreOf cur)).length = r.x.length + 2 * r.pad cur.fek → wellFormed t.samples r.x.length (r.bd cur.fek)) :=
-  fit_is_pipeline rc o ops r hdone
+  fit_is_pipeline o ops r hdone
+
+open Obj in
+/-- ... and `recompute_edges(r)` on such an object: the stored table becomes the SAME table with its two consistency columns and its labels replaced by the transcribed
+edge recomputation (C16) - evaluated with the stored thresholds lowered by `r` and with the centring the code SEES (`peak and return_samples`: for a peak-centred
+object that dropped its sample columns this is the trough pairing, the known finding) - while samples, shape and settings are untouched. -/
+theorem C14_edges_on_pipeline (o : Obj Recording Table) (oc : PipeOut) (pk : Bool) (r : Option Rat) (hdf : o.df = some (.cycles oc pk))
+    (hdone : (step pipelineApi o (.edges r)).2 = .done) :
+    ∃ rows, recomputeEdges pk (edgeRowsOf oc) (cycThreshOf (reduceThresholds o.st.thresholds r)) = .ok rows ∧
+      (step pipelineApi o (.edges r)).1.df = some (.cycles (withEdges oc rows) pk) ∧
+      (withEdges oc rows).samples = oc.samples ∧ (withEdges oc rows).shape = oc.shape ∧
+      (step pipelineApi o (.edges r)).1.st = o.st :=
+  edges_on_pipeline o oc pk r hdf hdone
 
 open Obj in
 /-- a group fit that succeeds, with `compute_features_2d(axis=0)` taken as what C11 proves it to be (the per-signal analysis, position by position): at every position
@@ -205,12 +217,16 @@ def exampleRecording : Obj.Recording :=
    fun _ _ => ([0,0,0,0,1,1,1,1,1,1,1,1,1,1,1,1,1,1,0,0,0,0] : List Nat).map (· == 1)⟩
 
 example :
-    (Obj.step (Obj.pipelineApi fun t _ => .ok t)
+    (Obj.step Obj.pipelineApi
       (Obj.construct (S := Obj.Recording) (T := Obj.Table) true true none (some [("min_n_cycles", 1), ("monotonicity_threshold", 0), ("amp_consistency_threshold", 0), ("period_consistency_threshold", 0)]) none true)
       (.fit exampleRecording)).2 = .done ∧
-    (Obj.step (Obj.pipelineApi fun t _ => .ok t)
+    (Obj.step Obj.pipelineApi
       (Obj.construct (S := Obj.Recording) (T := Obj.Table) false false none (some [("burst_fraction_threshold", 1/2), ("min_n_cycles", 1)]) none true)
-      (.fit exampleRecording)).2 = .done := by
+      (.fit exampleRecording)).2 = .done ∧
+    (Obj.step Obj.pipelineApi
+      (Obj.step Obj.pipelineApi
+        (Obj.construct (S := Obj.Recording) (T := Obj.Table) true true none (some [("min_n_cycles", 1), ("monotonicity_threshold", 0), ("amp_consistency_threshold", 0), ("period_consistency_threshold", 0)]) none true)
+        (.fit exampleRecording)).1 (.edges none)).2 = .done := by
   decide +kernel
 
 end Bycycle
